@@ -12,8 +12,10 @@
 (*  - A system is what the routines see of a crystal: ns supercell atoms,   *)
 (*    np primitive atoms, the pure lattice translations as permutations of  *)
 (*    the supercell atoms (perms[t][i] = image of atom i), p2s, s2p, and -  *)
-(*    for the space-group average - operations (R, perm) with R an integer  *)
-(*    orthogonal Cartesian rotation.  Atom and component indices are        *)
+(*    for the space-group average - the Gram matrix G of the supercell       *)
+(*    lattice and the operations [W, perm], W the integer rotation in        *)
+(*    lattice coordinates (arrays of these routes are in covariant lattice   *)
+(*    components, see SymOps.tla).  Atom and component indices are           *)
 (*    0-based as in the code; TLA+ sequences are 1-based, hence the "+ 1".  *)
 (*  - A force-constant array is [den, a, ok]: value a[m] / den at the flat  *)
 (*    C position m = ((i*ns + j)*d + k)*d + l (+1), i the row atom (all     *)
@@ -156,6 +158,8 @@ Announced(T, c, xin) ==
           [] c.route = "sg" -> SGInv(T, xin)
           [] OTHER -> Symmetric(T, xin)
   /\ ("periodic" \in DOMAIN c /\ c.periodic) => Periodic(T, xin)
+  (* spring-model force constants obey every invariance *)
+  /\ ("spring" \in DOMAIN c /\ c.spring) => (SGInv(T, xin) /\ Symmetric(T, xin) /\ Periodic(T, xin))
 
 V(name, holds) == IF holds THEN {} ELSE {name}
 
@@ -186,6 +190,7 @@ ModelVerdict ==
              \cup V("ImposesSG", ReqImposesSG(S, c, x0, fc))
              \cup V("FixesSG", ReqFixesSG(S, c, x0, fc))
              \cup V("SGKeeps", ReqSGKeeps(S, c, x0, fc))
+             \cup V("SGKeepsPermSym", PermSym(S, x0) => PermSym(S, fc))
              \cup V("Idempotent", SameArr(Run(S, r, c.level, fc), fc))
            ELSE {})
      \cup V("TransposeIsTranspose", ReqTranspose(S, c, x0, fc))
@@ -227,6 +232,7 @@ InvFixesCompact == "FixesCompact" \notin verdict
 InvImposesSG == "ImposesSG" \notin verdict
 InvFixesSG == "FixesSG" \notin verdict
 InvSGKeeps == "SGKeeps" \notin verdict
+InvSGKeepsPermSym == "SGKeepsPermSym" \notin verdict
 InvIdempotent == "Idempotent" \notin verdict
 InvCompactEqFull == "CompactEqFull" \notin verdict
 InvPyEqC == "PyEqC" \notin verdict
